@@ -290,7 +290,9 @@ def check_verdicts(b, family, values, df, col, w, eps_list=(0, 0.25, 0.5), tz=Fa
                         b.check('C02.verify_allowed_values.verdict',
                                 bool(got) == bool(SPEC['spec_allowed_values'](col, av)), w2,
                                 'verifier %r' % (got,))
-                for rx in (['^a+$'], ['^.*$'], ['^[a-z]*$', '^$'], ['^b$']):
+                # incl. expressions not tied to the end (or the start) of the value: a rex constraint is
+                # satisfied by re.match, i.e. a match starting at the first character, not a full match
+                for rx in (['^a+$'], ['^.*$'], ['^[a-z]*$', '^$'], ['^b$'], ['^a'], ['a'], ['b', '^é'], ['^.'], ['b$']):
                     con = base.RexConstraint(rx)
                     w2 = dict(w, kind='rex', value=rx)
                     b.case(('verdict', family, values, 'rex', repr(rx)))
@@ -666,6 +668,8 @@ def violated_constraints(col):
         out.append(('allowed_values', ['zz'], ['zz'], None))
         out.append(('rex', ['^a+$'], ['^a+$'], None))
         out.append(('rex', ['^$'], ['^$'], None))
+        out.append(('rex', ['^a'], ['^a'], None))           # not tied to the end: re.match, not a full match
+        out.append(('rex', ['b', '^é'], ['b', '^é'], None))
     out.append(('no_duplicates', True, True, None))
     out.append(('max_nulls', 0, 0, None))
     if col.n0 > 1:
